@@ -217,10 +217,6 @@ theorem atom_ok (k : AtomKind) (toks : List Tok) (hp : atomPrintable k toks = tr
     | (simpa [toksOf, Function.comp_def] using h; done)
     | (simp [toksOf, kwTokOk]; done)
     | skip
-  · rename_i t v q kw
-    simp only [atomPrintable, Option.isNone_iff_eq_none] at hp
-    subst hp
-    simpa [toksOf] using h
   · decide +kernel
   · decide +kernel
   · simp [tokOk_kwTokOk tokOk_NULL]
